@@ -14,8 +14,8 @@ RULE = ("seeded (algorithm, data, user initialisation with unit / positive / neg
         "configurations; non-trivial = non-unit weights or a non-empty fixed set; distinct = distinct configuration descriptors")
 ASSUMPTIONS = ["non-negative algorithms get non-negative weights and factors (their domain)",
                "Tucker fixed factors are orthonormal (HOOI's domain)",
-               "absorbed-weights equivalence: ALS-type algorithms (parafac, HALS, PARAFAC2) are invariant to which factor carries the "
-               "scale; the multiplicative and ADMM variants are not, so there the weights are absorbed into the last factor",
+               "absorbed-weights equivalence: exact ALS (parafac, PARAFAC2) is invariant to which factor carries the scale; the "
+               "multiplicative, ADMM and (inexact inner loop) HALS variants are not, so there the weights are absorbed into the last factor",
                "fixed modes are combined with normalize_factors=False"]
 GENS = ["parafac", "nn_parafac", "nn_parafac_hals", "constrained_parafac", "tucker", "nn_tucker_hals", "parafac2"]
 CASE_TIMEOUT = {"quick": 120, "thorough": 120}
@@ -113,7 +113,9 @@ def _run_case(case, ctx):
         # (absorbed)
         if wk != "ones":
             ctx.count("clause/absorbed")
-            k = int(rs.randint(order)) if algo in ("parafac", "nn_parafac_hals") else order - 1
+            # only exact block solvers are invariant to which factor carries the scale; HALS runs a fixed number of inner
+            # coordinate sweeps (inexact), so its iterates depend on the scaling at the 1e-5 level (thorough-tier false alarm)
+            k = int(rs.randint(order)) if algo == "parafac" else order - 1
             fs2 = [f.copy() for f in fs]
             fs2[k] = fs2[k] * w
             sweeps = int(rs.randint(1, 4))
